@@ -16,7 +16,7 @@ ASSUMPTIONS = ["declarations referencing the start of the data are run at offset
                "backward-positioned EMPTY fields inside an occupied region are not generated (Fragments' empty-chunk acceptance is unspecified)",
                "the reference parser bv/ir.py is trusted; it shares Python's re with the implementation for regex delimiters"]
 
-PROF = gen.profile(move=0.2, refsel_optdep=True)
+PROF = gen.profile(defaults=0.3, move=0.2, refsel_optdep=True)
 
 
 def shards(tier):
